@@ -11,6 +11,9 @@ import ClairModel.Proofs.Match
 import ClairModel.Proofs.MatchProto
 import ClairModel.Proofs.EnrichProto
 
+-- every variable of a property statement is bound explicitly: a misspelt name is an error, not a new variable
+set_option autoImplicit false
+
 namespace ClairModel.Props.C05
 open ClairModel ClairModel.Match
 
